@@ -94,6 +94,10 @@ def argn_family(rng, n):
     lim = getattr(_sys, "get_int_max_str_digits", lambda: 0)()
     if lim:
         out.append(f"Select(Select(ds, lambda e: e.met + arg_{'9' * lim}), lambda x: x + 1)")
+        # ... and one digit shorter, next to a name of the limit length (wave-14 review of 67dbec6: a bound on the LENGTH
+        # stopped reserving the whole family the counter had just been moved into)
+        near, big = "arg_" + "9" * (lim - 1), "arg_1" + "0" * (lim - 2) + "1"
+        out.append(f"Select(Select(ds, lambda {near}: {near}), lambda x: Select(x.jets, lambda {big}: {big}.pt + x.met))")
     tries = 0
     while len(out) < n and tries < 20 * n:
         tries += 1
